@@ -263,6 +263,18 @@ where
                 ev.y = y;
                 self.tab(t).extend(items);
             }
+            "from_iter" => {
+                let mut items = Vec::new();
+                let mut y = Vec::new();
+                for c in ev.ks.iter() {
+                    let key = K::make(*c as u32);
+                    y.push(vec![key.class() as i64, key.id() as i64, 0, 0]);
+                    items.push(key);
+                }
+                ev.y = y;
+                let m: HashSet<K, PlanBH, CheckingAlloc> = items.into_iter().collect();
+                drop(self.tabs[t - 1].replace(m));
+            }
             "clear" => self.tab(t).clear(),
             "reserve" => self.tab(t).reserve(ev.n as usize),
             "shrink_to" => self.tab(t).shrink_to(ev.n as usize),
@@ -340,6 +352,11 @@ where
                     }
                     if ev.n == 1 {
                         std::mem::forget(it);
+                    } else if ev.n == 2 {
+                        it.fold((), |_, ok| {
+                            y.push(vec![ok.class() as i64, ok.id() as i64, 0, 0]);
+                            kept.push(ok);
+                        });
                     }
                 }
                 ev.y = y;
